@@ -320,7 +320,7 @@ func (eng *Engine) verifyFunc(p *packages.Package, key string) (*FuncVerifier, e
 		for key := range m {
 			kind := strings.SplitN(strings.SplitN(key, "/", 2)[0], "#", 2)[0]
 			switch kind {
-			case "if", "for", "range", "switch", "select", "inc", "assign", "return":
+			case "if", "for", "range", "switch", "select", "inc", "assign", "return", "send":
 				if nd, ok := findNode(fd.Body, key).(ast.Stmt); ok && nd != nil {
 					fv.stmtSites[nd] = key
 				} else {
@@ -930,6 +930,8 @@ func findNode(body *ast.BlockStmt, path string) ast.Node {
 				match = kind == "assign"
 			case *ast.ReturnStmt:
 				match = kind == "return"
+			case *ast.SendStmt:
+				match = kind == "send"
 			}
 			if match {
 				if n == k {
